@@ -3026,6 +3026,9 @@ class MNOT(M_Pattern_One):
 
             return ASTS_LEAF__ALL
 
+        elif not _is_type_only_pattern(p):  # pattern can reject nodes of its own types (e.g. `MName('x')`) so the negation can match any type
+            return ASTS_LEAF__ALL
+
         elif len(leaf_asts) >= _LEN_ASTS_LEAF__ALL:  # >= because maybe some extra node types got in there from the future
             return _EMPTY_SET
 
@@ -5642,6 +5645,21 @@ _MATCH_FUNCS = {
 
 # ......................................................................................................................
 # get all leaf AST types that can possibly match a given _Pattern, for search()
+
+def _is_type_only_pattern(pat: _Pattern) -> bool:
+    """Whether `pat` is a pure node type check which matches ALL nodes of the types it can match, only such a pattern can
+    be negated by complementing its types."""
+
+    if isinstance(pat, type):
+        return True
+
+    if isinstance(pat, (M, MNOT)):
+        return _is_type_only_pattern(pat.pat)
+
+    if isinstance(pat, MOR):
+        return all(_is_type_only_pattern(p) for p in pat.pats)
+
+    return False
 
 def _leaf_asts_default(pat: _Pattern) -> tp_Set[type[AST]] | None:
     if isinstance(pat, M_Pattern):
